@@ -75,7 +75,8 @@ class Run:
             logger = sched.make_logger()
             fail = set(prog.get("fail", ()))
             snk = sched.FailingSink("s0", lambda text: text in fail) if fail else sched.TracingSink("s0")
-            hid = logger.add(snk, enqueue=True, context=sched.FakeContext(), format="{message}",
+            hid = logger.add(snk, enqueue=True, context=sched.FakeContext(start_method=prog.get("start_method", "fork")),
+                             format="{message}",
                              catch=bool(prog.get("catch", False)), colorize=False)
             err = sched.TracingStderr()
             self.fork_results = []
